@@ -120,7 +120,7 @@ func checkExact(c ExactCase) error {
 			}
 			continue
 		}
-		if st.T.Root().Nneigh() < 2 || len(st.T.Tips()) < 3 {
+		if len(st.T.Tips()) < 3 {
 			break
 		}
 		if err := st.T.ReinitIndexes(); err != nil {
@@ -679,9 +679,7 @@ func TestC04Quartets(t *testing.T) {
 	var rc QCase
 	if replaying, mine := r.ReplayCase(&rc); replaying {
 		if mine {
-			if err := checkQ(rc); err != nil {
-				t.Fatalf("replayed case fails: %v", err)
-			}
+			r.Replayed(checkQ(rc))
 		}
 		return
 	}
